@@ -517,6 +517,9 @@ impl CaseSpace for C12 {
     fn name(&self) -> String {
         self.name.clone()
     }
+    fn seeded(&self) -> bool {
+        true
+    }
     fn total(&self) -> usize {
         self.cases.len()
     }
